@@ -575,6 +575,14 @@ class FileCache:
                     index = filepaths.index(cache_miss.filepath)
                     filepaths.pop(index)
 
+        # Touch the files that were served from the cache so that they count
+        # as recently used (last to be evicted).
+        downloaded = [cache_miss.filename for cache_miss in cache_misses]
+        for uri in uris:
+            _hash = self._cache_file_name(uri)
+            if _hash not in downloaded and self._is_in_cache(_hash):
+                self._get_from_cache(_hash)
+
         size_of_requested_data = _get_total_size_of_files_in_bytes(filepaths)
         if size_of_requested_data > self.config.max_size_bytes:
             warning = (
